@@ -107,7 +107,7 @@ Proof.
     apply in_app_or in Hin. destruct Hin as [Hin|Hin].
     + exfalso. eapply not_in_frees; eauto.
     + cbn in Hin. destruct Hin as [E|[]]. inversion E; subst.
-      exists id, k, c. unfold matchable. auto.
+      exists id, k, c. unfold matchable. repeat split; auto.
   - inversion H; subst. cbn [In] in Hin. destruct Hin as [E|Hin]; [discriminate|].
     exfalso. eapply not_in_frees; eauto.
 Qed.
@@ -154,7 +154,7 @@ Proof.
       assert (Hc' : c' = mkRctx 0 None (cx_send c) None (Some m') (cx_retry c) (cx_sretry c) (cx_rtime c) (cx_creset c) false).
       { destruct (k0 =? 0)%N; unfold ctx_get, ctx_put in Hg; cbn [rq_ctxs set_ctxs set_readable] in Hg;
           rewrite lookup_assoc_set_same in Hg; now inversion Hg. }
-      subst c'. cbn in Hb. inversion Hb; subst. unfold matchable. auto.
+      subst c'. cbn in Hb. inversion Hb; subst. unfold matchable. repeat split; auto.
   - left. exists c'. split; [|exact Hb].
     destruct (cx_recv c) as [ra|] eqn:ERA; inversion H; subst.
     + unfold ctx_get, ctx_put in Hg. cbn [rq_ctxs set_ctxs] in Hg. rewrite lookup_assoc_set_other in Hg by exact Hk.
@@ -187,13 +187,15 @@ Proof.
   - split.
     + unfold ctx_put. cbn [rq_ids set_ctxs set_ids]. apply lookup_assoc_del_same.
     + eexists. split; [unfold ctx_get, ctx_put; cbn [rq_ctxs set_ctxs]; apply lookup_assoc_set_same|].
-      cbn. repeat split; auto; try discriminate.
-      * intros a E. inversion E; subst. apply in_cons, in_or_app. right. left. reflexivity.
+      cbn [cx_rid cx_req cx_recv cx_rep]. split; [reflexivity|]. split; [reflexivity|]. split; [reflexivity|].
+      split; [intros E; discriminate|]. intros a0 E. inversion E; subst. split; [|reflexivity].
+      apply in_cons, in_or_app. right. left. reflexivity.
   - split.
     + destruct (k =? 0)%N; unfold ctx_put; cbn [rq_ids set_ctxs set_ids set_readable]; apply lookup_assoc_del_same.
     + eexists. split.
       * destruct (k =? 0)%N; unfold ctx_get, ctx_put; cbn [rq_ctxs set_ctxs set_readable]; apply lookup_assoc_set_same.
-      * cbn. repeat split; auto; intros; discriminate.
+      * cbn [cx_rid cx_req cx_recv cx_rep]. split; [reflexivity|]. split; [reflexivity|]. split; [reflexivity|].
+        split; [reflexivity|]. intros a0 E. discriminate.
 Qed.
 
 (* ------------------------------------------------------------------ *)
@@ -244,9 +246,10 @@ Proof.
   { destruct (REQ_ID_MAX - REQ_ID_MIN <? N.of_nat (length (rq_ids s2)))%N; [inversion H; eauto|].
     destruct (id_alloc (S (length (rq_ids s2))) (rq_ids s2) (rq_cursor s2)) as [[id cur']|]; [|inversion H; eauto].
     destruct (is_nil (rq_ready s2) && nb); [inversion H; eauto|].
-    repeat match type of H with (let '(_, _) := ?X in _) = _ => destruct X end.
-    repeat match type of H with (let '(_, _, _) := ?X in _) = _ => destruct X as [[? ?] ?] end.
-    inversion H; subst. eauto. }
+    cbv zeta in H.
+    match type of H with context [if ?b then (set_timer _ _ _, _) else _] => destruct b end;
+    match type of H with context [run_send_queue fx ?X] => destruct (run_send_queue fx X) as [[s7 o5] cl'] end;
+    inversion H; subst; eauto. }
   destruct Ho as [rest ->]. split.
   - intros ra E. subst o1. rewrite E. apply in_or_app. left. left. reflexivity.
   - intros sa E. rewrite E in E2. inversion E2; subst. apply in_or_app. right. apply in_or_app. left. left. reflexivity.
